@@ -19,7 +19,7 @@ type c09 struct{ base }
 
 func init() {
 	runner.Register(&c09{base{id: "C09", level: "exploration",
-		rule:        "strings derived from valid condition and update sentences (generated ASTs rendered to text): every token-boundary prefix, every single-token deletion / duplication / adjacent swap, insertions from a vocabulary (keywords in three letter cases, comparators, ( ) [ ] . , + -, placeholders, names), juxtapositions 's1 s2', trailing tokens, unbalanced parentheses; byte level: random bytes incl. NUL, UTF-8 multibyte, control characters, lengths {0,1,2,3..64,255,256,1023,4095,4096}, whitespace-only, '((((...' and 'NOT NOT ...' nests up to 4 KB; hostile bindings (alias cycles, aliases containing '.'). Each string is evaluated with interpreter.Language.Match / Update in a worker process (a fatal error kills only the worker; a watchdog bounds run time) and a sample through PutItem/UpdateItem/Scan on both adapters. Oracle: runtime panic / fatal error never admissible; a string the LIBERAL recogniser (superset grammar, case-insensitive keywords) rejects must be rejected; a sentence must be rejected or evaluate to the value of the WHOLE sentence; at the client API a rejection must surface as an error or the documented panic. non-trivial = non-empty; distinct by (grammar, token-kind sequence). Every direct evaluation runs under a termination guard (30 s; normal is microseconds): an evaluation that does not return while its goroutine is inside the interpreter is reported once (does-not-return), the worker skips and counts its remaining cases; hostile list positions (negative, fractional, huge, not a number) also where an element is READ.",
+		rule:        "strings derived from valid condition and update sentences (generated ASTs rendered to text): every token-boundary prefix, every single-token deletion / duplication / adjacent swap, insertions from a vocabulary (keywords in three letter cases, comparators, ( ) [ ] . , + -, placeholders, names), juxtapositions 's1 s2', trailing tokens, unbalanced parentheses; byte level: random bytes incl. NUL, UTF-8 multibyte, control characters, lengths {0,1,2,3..64,255,256,1023,4095,4096}, whitespace-only, '((((...' and 'NOT NOT ...' nests up to 4 KB; hostile bindings (alias cycles, aliases containing '.'). Each string is evaluated with interpreter.Language.Match / Update in a worker process (a fatal error kills only the worker; a watchdog bounds run time) and a sample through PutItem/UpdateItem/Scan on both adapters. Oracle: runtime panic / fatal error never admissible; a string the LIBERAL recogniser (superset grammar, case-insensitive keywords) rejects must be rejected; a sentence must be rejected or evaluate to the value of the WHOLE sentence; at the client API a rejection must surface as an error or the documented panic. non-trivial = non-empty; distinct by (grammar, token-kind sequence). Every direct evaluation runs under a termination guard (two minutes; normal is microseconds): an evaluation that does not return while its goroutine is inside the interpreter is reported once (does-not-return), the worker skips and counts its remaining cases; hostile list positions (negative, fractional, huge, not a number) also where an element is READ.",
 		assumptions: append([]string{"'not a sentence' is only claimed for strings outside a deliberately liberal superset grammar"}, commonAssumptions...)}})
 }
 
@@ -373,8 +373,13 @@ func (p *c09) checkCond(x *res, s c09Str, names map[string]string, values val.It
 // reported once, the rest of the worker's cases are skipped (and counted) instead of hanging one after the other.
 var c09Stuck bool
 
+// c09ReturnWait is how long one evaluation may take before it counts as not returning. The slowest legitimate
+// evaluation of the workload (2040 nested parentheses) takes a few milliseconds; two minutes leave five orders of
+// magnitude for a loaded machine.
+const c09ReturnWait = 2 * time.Minute
+
 // returns runs one evaluation of the front end and waits for it. "Terminates" is judged generously: evaluations take
-// microseconds (the 4 KB extremes under a second); one that has not come back after 30 seconds while its goroutine
+// microseconds (the 4 KB extremes under a second); one that has not come back after two minutes while its goroutine
 // is inside the interpreter is reported as non-termination. If the goroutine dump does not show it there (a starved
 // machine), the case is inconclusive, not a violation.
 func (p *c09) returns(x *res, grammar string, s c09Str, names map[string]string, values val.Item, f func()) bool {
@@ -386,17 +391,17 @@ func (p *c09) returns(x *res, grammar string, s c09Str, names map[string]string,
 	select {
 	case <-done:
 		return true
-	case <-time.After(30 * time.Second):
+	case <-time.After(c09ReturnWait):
 	}
 	c09Stuck = true
 	buf := make([]byte, 1<<20)
 	dump := string(buf[:runtime.Stack(buf, true)])
 	if !strings.Contains(dump, "minidyn/interpreter") {
 		x.r.Inconclusive++
-		x.set("inconclusive", "an evaluation did not return within 30 s and is not inside the interpreter")
+		x.set("inconclusive", "an evaluation did not return within two minutes and is not inside the interpreter")
 		return false
 	}
-	x.viol("does-not-return", grammar, fmt.Sprintf("%s %q (%s): the evaluation has not returned after 30 seconds (normal: microseconds); its goroutine is inside the interpreter", grammar, s.s, s.kind),
+	x.viol("does-not-return", grammar, fmt.Sprintf("%s %q (%s): the evaluation has not returned after two minutes (normal: microseconds to milliseconds); its goroutine is inside the interpreter", grammar, s.s, s.kind),
 		map[string]interface{}{"grammar": grammar, "expression": s.s, "derived_by": s.kind, "names": names, "values": values})
 	return false
 }
